@@ -7,6 +7,8 @@ Extracted (structure, not digest):
     call site in `_exec_job_main_thread` must be the single, unconditional one on the entry path;
   * the counter: `job.parent_job.handle_forks[value.get_hash()]`, incremented before / after the read,
     the call order of a job without parent;
+  * the scope of the counter: every Job creates its own `handle_forks` (a child uses its PARENT's), or
+    Execution creates one that every Job aliases (one counter per execution);
   * `Handle.preprocess`: `self.fork(self.__handle__.key or str(call_order))` (key reuse) or
     `self.fork(str(call_order))`;
   * `_done_job_main_thread` postprocesses the result of a job that was not cached with `job.eval_hash`.
@@ -186,6 +188,35 @@ def translate(sources: dict | None = None, pins: dict | None = None):
     else:
         fail(f"Handle.preprocess: unrecognised body {hb}", hp)
 
+    # ---- scope of the fork counter ----------------------------------------------------------
+    # every assignment to an attribute `handle_forks` in scheduler.py: either each Job makes its own
+    # dict, or Execution makes one and every Job aliases it
+    sites = []
+    for cls_name in ("Job", "Execution"):
+        cls_node = find_class(sched, cls_name)
+        for n in ast.walk(cls_node):
+            if isinstance(n, (ast.Assign, ast.AnnAssign)):
+                tg = n.targets[0] if isinstance(n, ast.Assign) else n.target
+                if isinstance(tg, ast.Attribute) and tg.attr == "handle_forks":
+                    sites.append((cls_name, src(tg), src(n.value)))
+    all_sites = [n for n in ast.walk(sched) if isinstance(n, (ast.Assign, ast.AnnAssign))
+                 and isinstance(n.targets[0] if isinstance(n, ast.Assign) else n.target, ast.Attribute)
+                 and (n.targets[0] if isinstance(n, ast.Assign) else n.target).attr == "handle_forks"]
+    if len(all_sites) != len(sites):
+        fail("handle_forks is assigned outside Job / Execution")
+    if sites == [("Job", "self.handle_forks", "defaultdict(int)")]:
+        per_parent = True
+    elif sorted(sites) == [("Execution", "self.handle_forks", "defaultdict(int)"),
+                           ("Job", "self.handle_forks", "execution.handle_forks if execution else defaultdict(int)")]:
+        per_parent = False
+    else:
+        fail(f"unrecognised creation of the handle_forks counters: {sites}")
+    for n in ast.walk(sched):
+        if isinstance(n, ast.Attribute) and n.attr == "handle_forks":
+            owner = src(n.value)
+            if owner not in ("self", "job.parent_job", "execution"):
+                fail(f"handle_forks read through an unexpected object: {owner}", n)
+
     got = {}
     for rel, cls, name in PINNED:
         got[f"{cls + '.' if cls else ''}{name}"] = pin(_find(mods[rel], cls, name))
@@ -196,11 +227,11 @@ def translate(sources: dict | None = None, pins: dict | None = None):
 
     bb = lambda x: "true" if x else "false"
     cfg = {"pre_every_entry": every_entry, "read_after_incr": read_after_incr, "root_order": root_order,
-           "key_reuse": key_reuse}
+           "key_reuse": key_reuse, "forks_per_parent": per_parent}
     text = ("(* GENERATED by translate/tr_timing.py from /repo/redun/scheduler.py and /repo/redun/handle.py *)\n"
             "From RV Require Import Model.Timing.\n"
             f"Definition gen_cfg : cfg := {{| pre_every_entry := {bb(every_entry)}; read_after_incr := {bb(read_after_incr)}; "
-            f"root_order := {root_order}%nat; key_reuse := {bb(key_reuse)} |}}.\n")
+            f"root_order := {root_order}%nat; key_reuse := {bb(key_reuse)}; forks_per_parent := {bb(per_parent)} |}}.\n")
     return text, cfg, got
 
 
